@@ -70,7 +70,9 @@ Neighbourhoods(x) == {<<x>>, <<NbFn, x>>, <<x, NbCtor>>, <<NbBad, x>>, <<x, NbBa
 
 \* C07: pragma families -------------------------------------------------------------------------------
 PragmaOf(id, value) == N("SUP.PragmaDirective", [pragmaId |-> id, value |-> value], <<>>)
-PragmaValues == {"^0.8.0", "0.8.0", "=0.8.0", ">=0.8.0", "~0.8.0", ">=0.8.0 <0.9.0", ">=0.4.0 ^0.8.0", "^0.4.24"}
+PragmaValues == {"^0.8.0", "0.8.0", "=0.8.0", ">=0.8.0", "~0.8.0", ">=0.8.0 <0.9.0", ">=0.4.0 ^0.8.0", "^0.4.24",
+                 \* versions of fewer than three components, a blank after the caret, a pre-release tag: floating all the same
+                 "^0.8", "^0", "0.8", "^ 0.8.19", "^0.8.0-rc1", "^0.7.6 || ^0.8.0", "^1.0.0", "^0.8.00"}
 PragmaFiles ==
     {I("pragma:" \o v, "SU", N("SU.SourceUnit", A0, <<<<PragmaOf("solidity", v), Item0("Plain")>>>>)) : v \in PragmaValues}
     \cup {I("pragma:abicoder-first:" \o v, "SU", N("SU.SourceUnit", A0, <<<<PragmaOf("abicoder", "v2"), PragmaOf("solidity", v), Item0("Plain")>>>>)) : v \in {"^0.8.0", "0.8.0"}}
